@@ -35,6 +35,19 @@ def stages(tier, rng, only=None):
     out.append(ac.stage("nondyadic", PID, lambda: ac.cases([ac.random_dataset(rng, 6, 5) for _ in range(n_rand)],
                                                            algorun.ALL_CONFIGS, NONDYADIC, namings=["ints"],
                                                            every={k: 4 * v for k, v in COSTLY.items()}), _nt))
+    g = grids.datasets(3, 2)
+    out.append(ac.stage("reuse_after_mutation", PID, lambda: ac.reuse_mutate_cases(
+        g[::3] + [ac.random_dataset(rng, 6, 5, nmin=2) for _ in range(n_rand // 2)],
+        algorun.ALL_CONFIGS, SCHEMES, rng, flags=(1, 0), every=COSTLY), _nt))
+    out.append(ac.stage("reuse_other_dataset", PID, lambda: ac.reuse_other_cases(
+        g[::5] + [ac.random_dataset(rng, 6, 5, nmin=2) for _ in range(n_rand // 2)],
+        algorun.ALL_CONFIGS, SCHEMES + NONDYADIC[:1], rng, flags=(1, 0), every=COSTLY), _nt))
+    out.append(ac.stage("tiny_penalties", PID, lambda: ac.cases(
+        [ac.random_dataset(rng, 6, 6, nmin=3) for _ in range(n_rand)] + g[::7], algorun.ALL_CONFIGS, ac.TINY,
+        flags=(0, 1), every={k: 4 * v for k, v in COSTLY.items()}), _nt))
+    out.append(ac.stage("cycles", PID, lambda: ac.cases(
+        [ac.cyclic_dataset(rng, 3, 5, incomplete=k % 2 == 1) for k in range(n_rand // 3)],
+        algorun.ALL_CONFIGS, SCHEMES, every={k: 2 * v for k, v in COSTLY.items()}), _nt))
     from .C08 import twin_stage, _search_cases
     out.append(twin_stage("local_search_bookkeeping", lambda: _search_cases(
         grids.datasets(3, 2)[::2] + [ac.random_dataset(rng, 6, 5, nmin=3) for _ in range(n_rand)], SCHEMES), PID))
